@@ -2,6 +2,9 @@ package main
 
 import (
 	"fmt"
+	"go/ast"
+	"go/parser"
+	"go/printer"
 	"go/token"
 	"go/types"
 	"regexp"
@@ -14,6 +17,45 @@ import (
 var pathElemRe = regexp.MustCompile(`[A-Za-z0-9_.\-~]+/`)
 
 // shortenKey strips directory parts of import paths: (*net/http.Client).Do → (*http.Client).Do
+// canonFuncKey drops the parameter and result names from the key of a call through a function value of an unnamed
+// function type ("funcvalue:func(err error)" and "funcvalue:func(e error)" are the same callee for every purpose).
+func canonFuncKey(k string) string {
+	const pre = "funcvalue:"
+	if !strings.HasPrefix(k, pre+"func(") {
+		return k
+	}
+	ex, err := parser.ParseExpr(k[len(pre):])
+	if err != nil {
+		return k
+	}
+	ast.Inspect(ex, func(n ast.Node) bool {
+		if ft, ok := n.(*ast.FuncType); ok {
+			for _, fl := range []*ast.FieldList{ft.Params, ft.Results} {
+				if fl == nil {
+					continue
+				}
+				var out []*ast.Field
+				for _, f := range fl.List {
+					cnt := len(f.Names)
+					if cnt == 0 {
+						cnt = 1
+					}
+					for i := 0; i < cnt; i++ {
+						out = append(out, &ast.Field{Type: f.Type})
+					}
+				}
+				fl.List = out
+			}
+		}
+		return true
+	})
+	var sb strings.Builder
+	if err := printer.Fprint(&sb, token.NewFileSet(), ex); err != nil {
+		return k
+	}
+	return pre + sb.String()
+}
+
 func shortenKey(s string) string {
 	return pathElemRe.ReplaceAllString(s, "")
 }
@@ -68,7 +110,7 @@ func (x *Exec) resolveCall(st *State, fr *Frame, c *ssa.CallCommon) calleeInfo {
 		ci.key = shortenKey(fv.Clo.Fn.String())
 		return ci
 	}
-	ci.key = "funcvalue:" + shortenKey(types.TypeString(c.Value.Type(), nil))
+	ci.key = canonFuncKey("funcvalue:" + shortenKey(types.TypeString(c.Value.Type(), nil)))
 	return ci
 }
 
@@ -258,7 +300,7 @@ func (x *Exec) hookEvent(st *State, fr *Frame, kind, key string, args []Val, ret
 		return
 	}
 	for _, h := range x.contract.Hooks {
-		if h.Kind != kind || !x.matchKey(h.Pattern, key) {
+		if !x.matchHook(h, kind, key) {
 			continue
 		}
 		tf := x.topFrame(fr)
@@ -306,7 +348,7 @@ func (x *Exec) hookAfter(st *State, fr *Frame, kind, key string, args []Val, ret
 		return
 	}
 	for _, h := range x.contract.Hooks {
-		if h.Kind != kind || !x.matchKey(h.Pattern, key) {
+		if !x.matchHook(h, kind, key) {
 			continue
 		}
 		tf := x.topFrame(fr)
@@ -427,6 +469,25 @@ func (x *Exec) contractNames(fc *FuncContract, fn *ssa.Function, sig *types.Sign
 	return
 }
 
+// bindRenamed: a parameter, receiver, named result or captured variable that a contract clause names may have been renamed in the source;
+// the contract's description of it (locals.go) says which one it is, and the old name is bound to the same value.
+func (x *Exec) bindRenamed(env *Env, fc *FuncContract, fn *ssa.Function) {
+	if fc == nil || fn == nil || fc.Locals == nil {
+		return
+	}
+	for name := range fc.Locals {
+		if _, ok := env.vars[name]; ok {
+			continue
+		}
+		for _, nn := range x.prog.currentNames(fc, fn, name) {
+			if v, ok := env.vars[nn]; ok && nn != name {
+				env.vars[name] = v
+				break
+			}
+		}
+	}
+}
+
 // callByContract: assert requires, havoc assigns, assume ensures.
 func (x *Exec) callByContract(st *State, fr *Frame, fc *FuncContract, ci calleeInfo, pos token.Pos, kind string) (Val, bool) {
 	sig := ci.sig
@@ -446,6 +507,7 @@ func (x *Exec) callByContract(st *State, fr *Frame, fc *FuncContract, ci calleeI
 			}
 		}
 	}
+	x.bindRenamed(env, fc, ci.fn)
 	// ghost state private to the callee is existentially quantified for the caller
 	for _, g := range fc.Ghosts {
 		func() {
@@ -519,6 +581,7 @@ func (x *Exec) callByContract(st *State, fr *Frame, fc *FuncContract, ci calleeI
 		}
 		x.growAlloc(st)
 		x.assumeResultAllocated(st, sig.Results(), rv)
+		x.bindRenamed(env, fc, ci.fn)
 	}
 	st.flushPendingRefs()
 	env.old = old
@@ -919,6 +982,8 @@ func (x *Exec) atReturn(st *State, fr *Frame, rv Val, pos token.Pos) {
 			env.vars["result"] = v
 		}
 	}
+	x.bindRenamed(env, fc, fr.fn)
+	x.recordSignature(fc, fr.fn)
 	x.hookEvent(st, fr, "return", "", nil, nil, pos)
 	x.hookAfter(st, fr, "return", "", nil, rv, pos)
 	if fc == nil {
@@ -1057,6 +1122,11 @@ func (x *Exec) bindActiveLoopVars(env *Env, st *State, fr *Frame) {
 	if inner != nil {
 		x.bindLoopVars(env, st, fr, inner)
 		env.vars["inloop"] = intVal(IntLit(int64(fr.loops.ordinal[inner])))
+		if _, ok := env.vars["idx"]; !ok {
+			// the innermost loop has no index (a range over a map, a plain for): a clause written for an indexed loop
+			// still evaluates, and its `inloop == N` guards tell the loops apart
+			env.vars["idx"] = intVal(IntLit(-1))
+		}
 	}
 }
 
